@@ -63,14 +63,14 @@ def campaign(c):
         for k in range(0, n + 2):
             fault_run(c, src, k, n, 'every-offset')
     # several buffers: boundaries +-1 and a stride
-    for nrec, size in ([(6, 4000)] if c.quick else [(6, 4000), (40, 1400), (3, 30000), (200, 100)]):
+    for nrec, size in ([(6, 4000), (1, 9000), (2, 8192)] if c.quick else [(6, 4000), (1, 9000), (2, 8192), (40, 1400), (3, 30000), (200, 100), (1, 65000)]):
         src = big_program(nrec, size)
         n = len(core.run_cli(src)['pcap'])
         ks = set([0, 1, 23, 24, 25, n - 1, n, n + 1])
         for b in range(8192, n + 8192, 8192): ks.update([b - 1, b, b + 1])
         ks.update(range(0, n, max(1, n // (25 if c.quick else 200))))
         rec = 16 + 14 + (size // 64) * 64
-        for j in range(nrec): ks.update([24 + j * rec - 1, 24 + j * rec, 24 + j * rec + 16])
+        for j in range(nrec): ks.update([24 + j * rec - 1, 24 + j * rec, 24 + j * rec + 1, 24 + j * rec + 16, 24 + j * rec + rec // 2, 24 + (j + 1) * rec - 1])
         for k in sorted(x for x in ks if 0 <= x <= n + 1):
             fault_run(c, src, k, n, 'buffers')
     # other faults
